@@ -49,6 +49,7 @@ var interpretedPkgs = []string{
 	"github.com/oxtoacart/bpool",
 	"github.com/grpc-ecosystem/go-grpc-middleware/v2/interceptors/auth",
 	"github.com/grpc-ecosystem/go-grpc-middleware/v2",
+	"github.com/grpc-ecosystem/go-grpc-middleware/v2/metadata",
 	"internal/byteorder", "path/filepath", "internal/filepathlite", "hash/crc32", "encoding/hex", "internal/godebug",
 	"github.com/lni/dragonboat/v4/raftpb",
 	"github.com/planetscale/vtprotobuf/protohelpers",
